@@ -386,4 +386,67 @@ def run_bumps(tier="quick", seed=0):
     return res
 
 
-FAMILIES = {"cli_discipline": run, "cli_pipe": run_pipe, "cli_bumps": run_bumps}
+VERDICT_BOUND = ("about 90 version texts per format (valid spellings, `v` / `vv` / `V` prefixes, surrounding whitespace, non-ASCII digits and letters, "
+                 "empty parts, leading zeros, numbers around the integer limits): `zerv check --format semver|pep440 -- <text>` accepts exactly the "
+                 "texts the library parser accepts and reports the parser's printed form as the normalised form")
+
+VERDICT_TEXTS = ["1.2.3", "v1.2.3", "vv1.2.3", "V1.2.3", "vvv0.0.0-a+b", " 1.2.3", "1.2.3 ", "1.2.3\t", "1.2", "1", "1.2.3.4", "01.2.3", "1.02.3", "1.2.3-", "1.2.3+",
+                 "1.2.3-alpha", "1.2.3-alpha.1", "1.2.3-01", "1.2.3-0a", "1.2.3-a..b", "1.2.3-a+b", "1.2.3+a+b", "1.2.3+00", "1.2.3-é", "١.٢.٣", "1.2.3-٣", "1.2.3+٣",
+                 "1.2.3-rc.1+build.7", "1.2.3--", "1.2.3-x-y", "18446744073709551615.0.0", "18446744073709551616.0.0", "1.0.0-18446744073709551616", "",
+                 "v", "-1.2.3", "+1.2.3", "1.2.3-a_b", "1.2.3-Ａ", "1.0a1", "1.0.a.1", "1.0-alpha_1", "1.0A1", "1.0b", "1.0rc1", "1.0c1", "1.0pre1", "1.0preview1",
+                 "1.0.post1", "1.0-1", "1.0.POST-2", "1.0r2", "1.0rev2", "1.0.dev1", "1.0dev", "1.0.DEV-3", "1!1.0", "0!1.0", "1!", "!1.0", "1.0+abc", "1.0+ABC.1",
+                 "1.0+a-b_c", "1.0+", "1.0+a..b", "1.0+é", "1.0+ſ", "1.0+K", "1.0a1b2", "1.0.dev1.post1", "1..0", "1.0.", ".1.0", "v1.0", "vv1.0", "V1.0rc1",
+                 "1.0\n", "1.0 ", "1.0rc١", "4294967296!1.0", "1.4294967296", "1.0.post4294967296", "1.0+4294967296", "1.0+04294967296", "00001", "1.0a01",
+                 "1_0", "1.0_post1", "1.0post", "1.0.post.dev", "1.2.3a.post.dev"]
+
+
+def run_verdict(tier="quick", seed=0):
+    """C08 / C09: "`zerv check --format …` gives the same verdict (and normal form)" as the parser."""
+    import re
+    import cexengine
+    t0 = time.time()
+    res = {"family": "cli_check_verdict", "bound": VERDICT_BOUND, "cases": 0}
+    ok, msg = rengine.build_zerv()
+    okc, errc, _ = cexengine.build()
+    if not ok or not okc:
+        res.update(status="error", lines=["build failed: " + (msg if not ok else errc)[-400:]])
+        return res
+    zerv = rengine.ZERV
+    work = tempfile.mkdtemp(prefix="verif_verdict_")
+    classes = {}
+    try:
+        env = {k: v for k, v in os.environ.items() if not k.startswith("RUST_LOG") and not k.startswith("ZERV_")}
+        env.update(HOME=work, NO_COLOR="1")
+        texts = [t for t in VERDICT_TEXTS if "\n" not in t]
+        for fmt in ("semver", "pep440"):
+            p = subprocess.run([cexengine.BIN, "verdict", fmt], input="\n".join(texts) + "\n", capture_output=True, text=True, timeout=120)
+            lib = p.stdout.split("\n")
+            for i, t in enumerate(texts):
+                res["cases"] += 1
+                want = lib[i] if i < len(lib) else "?"
+                rc, out, err = _run(zerv, ["check", "--format", fmt, "--", t], None, work, env)
+                text = out.decode("utf-8", "replace")
+                accepted = rc == 0
+                if accepted != want.startswith("A"):
+                    classes.setdefault("verdict-differs", []).append(
+                        f"CEX cli_check_verdict class=verdict-differs `zerv check --format {fmt} -- {t!r}` says {'valid' if accepted else 'invalid'} (status {rc}) "
+                        f"but the {fmt} parser {'accepts' if want.startswith('A') else 'rejects'} it")
+                    continue
+                if accepted:
+                    m = re.search(r"normalized: (.*)\)", text)
+                    shown = m.group(1) if m else t
+                    if shown != want[2:]:
+                        classes.setdefault("normal-form-differs", []).append(
+                            f"CEX cli_check_verdict class=normal-form-differs `zerv check --format {fmt} -- {t!r}` reports {shown!r}, the parser prints {want[2:]!r}")
+    finally:
+        shutil.rmtree(work, ignore_errors=True)
+    res["wall_s"] = round(time.time() - t0, 2)
+    if classes:
+        lines = [l for v in classes.values() for l in v]
+        res.update(status="cex", lines=lines[:5], classes={k: v[:5] for k, v in classes.items()})
+    else:
+        res.update(status="no-cex", lines=[])
+    return res
+
+
+FAMILIES = {"cli_check_verdict": run_verdict, "cli_discipline": run, "cli_pipe": run_pipe, "cli_bumps": run_bumps}
